@@ -332,6 +332,9 @@ func (ex *Exec) refApply(op string, x, y bigRef) bigRef {
 		return r
 	}
 	// everything else: an uninterpreted function of the operand values
+	if op == "not" || op == "sqrt" {
+		return ex.refUF(op, []bigRef{x}, nil, 4)
+	}
 	return ex.refUF(op, []bigRef{x, y}, nil, 4)
 }
 
